@@ -10,6 +10,7 @@ import (
 	"math/rand"
 	"os"
 	"path/filepath"
+	"reflect"
 	"sort"
 	"strings"
 
@@ -191,6 +192,14 @@ func contentFor(rng *rand.Rand, cls string, small []xy) []byte {
 		return append(append(append([]byte{}, be32(big.NewInt(5))[:]...), be32(big.NewInt(7))[:]...), byte(rng.Intn(2)))
 	case "der_junk":
 		return secec.BuildASN1Signature(scFrom(big.NewInt(5)), scFrom(big.NewInt(7)))
+	case "cmp_junk":
+		return append(append([]byte{}, be32(big.NewInt(5))[:]...), be32(big.NewInt(7))[:]...)
+	case "cmp_s_zero":
+		return append(append([]byte{}, be32(big.NewInt(5))[:]...), make([]byte, 32)...)
+	case "cmp_s_ge_n":
+		return append(append([]byte{}, be32(big.NewInt(5))[:]...), be32(bigN)[:]...)
+	case "cmp_r_ge_n":
+		return append(append([]byte{}, be32(bigN)[:]...), be32(big.NewInt(7))[:]...)
 	}
 	return []byte{1, 2, 3}
 }
@@ -320,6 +329,18 @@ func execAPI(c *ctx, rng *rand.Rand, pl *apiPool, s skelStep, small []xy, blind 
 			kind = "err"
 		}
 	}
+	// a failed decode or constructor returns NO object: whatever came back next to the error must be nil
+	failObj := func(err error, objs ...any) {
+		fail(err)
+		if err == nil {
+			return
+		}
+		for _, o := range objs {
+			if v := reflect.ValueOf(o); v.IsValid() && !v.IsNil() {
+				kind = "err+object"
+			}
+		}
+	}
 	as32 := func(b []byte) *[32]byte {
 		if len(b) != 32 {
 			return nil
@@ -363,21 +384,21 @@ func execAPI(c *ctx, rng *rand.Rand, pl *apiPool, s skelStep, small []xy, blind 
 		case "pt.MultiScalarMultMismatch":
 			pl.pt[s.V].MultiScalarMult([]*secp256k1.Scalar{pl.sc[s.S]}, []*secp256k1.Point{pl.pt[s.P], pl.pt[s.Q]})
 		case "pt.SetBytes":
-			_, err := pl.pt[s.V].SetBytes(pl.buf[s.B])
-			fail(err)
+			ro, err := pl.pt[s.V].SetBytes(pl.buf[s.B])
+			failObj(err, ro)
 		case "pt.SetCompressedBytes":
-			_, err := pl.pt[s.V].SetCompressedBytes(pl.buf[s.B])
-			fail(err)
+			ro, err := pl.pt[s.V].SetCompressedBytes(pl.buf[s.B])
+			failObj(err, ro)
 		case "pt.SetUncompressedBytes":
-			_, err := pl.pt[s.V].SetUncompressedBytes(pl.buf[s.B])
-			fail(err)
+			ro, err := pl.pt[s.V].SetUncompressedBytes(pl.buf[s.B])
+			failObj(err, ro)
 		case "pt.UncompressedBytes":
 			pl.buf[s.B] = pl.pt[s.P].UncompressedBytes()
 		case "pt.CompressedBytes":
 			pl.buf[s.B] = pl.pt[s.P].CompressedBytes()
 		case "pt.XBytes":
 			b, err := pl.pt[s.P].XBytes()
-			fail(err)
+			failObj(err, b)
 			if err == nil {
 				pl.buf[s.B] = b
 			}
@@ -397,6 +418,34 @@ func execAPI(c *ctx, rng *rand.Rand, pl *apiPool, s skelStep, small []xy, blind 
 			pl.sc[s.S].ConditionalNegate(pl.sc[s.P], ctrlWord(s.C, s.S+s.P+c.n))
 		case "sc.CondSelect":
 			pl.sc[s.S].ConditionalSelect(pl.sc[s.P], pl.sc[s.Q], ctrlWord(s.C, s.S+s.P+c.n))
+		case "sig.ParseCompact":
+			r, sv, err := secec.ParseCompactSignature(pl.buf[s.B])
+			failObj(err, r, sv)
+			if err == nil {
+				pl.sc[s.S] = r
+				pl.sc[s.T] = sv
+			}
+		case "sig.ParseCompactRec":
+			r, sv, v, err := secec.ParseCompactRecoverableSignature(pl.buf[s.B])
+			failObj(err, r, sv)
+			if err == nil {
+				pl.sc[s.S] = r
+				pl.sc[s.T] = sv
+				reply = int(v)
+			}
+		case "sig.ParseDER":
+			r, sv, err := secec.ParseASN1Signature(pl.buf[s.B])
+			failObj(err, r, sv)
+			if err == nil {
+				pl.sc[s.S] = r
+				pl.sc[s.T] = sv
+			}
+		case "sig.BuildCompact":
+			pl.buf[s.B] = secec.BuildCompactSignature(pl.sc[s.S], pl.sc[s.T])
+		case "sig.BuildCompactRec":
+			pl.buf[s.B] = secec.BuildCompactRecoverableSignature(pl.sc[s.S], pl.sc[s.T], byte(s.C))
+		case "sig.BuildDER":
+			pl.buf[s.B] = secec.BuildASN1Signature(pl.sc[s.S], pl.sc[s.T])
 		case "sc.Equal":
 			reply = int(pl.sc[s.P].Equal(pl.sc[s.Q]))
 		case "sc.IsZero":
@@ -419,13 +468,13 @@ func execAPI(c *ctx, rng *rand.Rand, pl *apiPool, s skelStep, small []xy, blind 
 			if a == nil {
 				panic("harness: not a 32-byte buffer")
 			}
-			_, err := pl.sc[s.S].SetCanonicalBytes(a)
-			fail(err)
+			ro, err := pl.sc[s.S].SetCanonicalBytes(a)
+			failObj(err, ro)
 		case "sc.Bytes":
 			pl.buf[s.B] = pl.sc[s.S].Bytes()
 		case "key.NewPrivate":
 			k, err := secec.NewPrivateKey(pl.buf[s.B])
-			fail(err)
+			failObj(err, k)
 			if err == nil {
 				if c.n%2 == 0 { // the crypto.Signer view first, on a key object whose PublicKey() was never called
 					pl.priv, pl.pub = k, k.Public().(*secec.PublicKey)
@@ -435,7 +484,7 @@ func execAPI(c *ctx, rng *rand.Rand, pl *apiPool, s skelStep, small []xy, blind 
 			}
 		case "key.NewPrivateFromScalar":
 			k, err := secec.NewPrivateKeyFromScalar(pl.sc[s.S])
-			fail(err)
+			failObj(err, k)
 			if err == nil {
 				pl.priv, pl.pub = k, k.PublicKey()
 			}
@@ -451,13 +500,13 @@ func execAPI(c *ctx, rng *rand.Rand, pl *apiPool, s skelStep, small []xy, blind 
 			pl.buf[s.B] = pl.priv.Bytes()
 		case "key.NewPublic":
 			k, err := secec.NewPublicKey(pl.buf[s.B])
-			fail(err)
+			failObj(err, k)
 			if err == nil {
 				pl.pub, pl.priv = k, nil
 			}
 		case "key.NewPublicFromPoint":
 			k, err := secec.NewPublicKeyFromPoint(pl.pt[s.P])
-			fail(err)
+			failObj(err, k)
 			if err == nil {
 				pl.pub, pl.priv = k, nil
 			}
@@ -481,13 +530,13 @@ func execAPI(c *ctx, rng *rand.Rand, pl *apiPool, s skelStep, small []xy, blind 
 				panic("harness: no key objects")
 			}
 			b, err := pl.priv.ECDH(pl.pub)
-			fail(err)
+			failObj(err, b)
 			if err == nil {
 				pl.buf[s.B] = b
 			}
 		case "pt.NewFromBytes":
 			p, err := secp256k1.NewPointFromBytes(pl.buf[s.B])
-			fail(err)
+			failObj(err, p)
 			if err == nil {
 				pl.pt[s.V] = p
 			}
@@ -505,7 +554,7 @@ func execAPI(c *ctx, rng *rand.Rand, pl *apiPool, s skelStep, small []xy, blind 
 				panic("harness: not a 64-byte buffer")
 			}
 			p, err := secp256k1.NewPointFromCoords((*[32]byte)(b[:32]), (*[32]byte)(b[32:]))
-			fail(err)
+			failObj(err, p)
 			if err == nil {
 				pl.pt[s.V] = p
 			}
@@ -513,13 +562,13 @@ func execAPI(c *ctx, rng *rand.Rand, pl *apiPool, s skelStep, small []xy, blind 
 			pl.pt[s.V].SetUniformBytes(pl.buf[s.B])
 		case "pt.Recover":
 			p, err := secp256k1.RecoverPoint(pl.sc[s.S], byte(s.C))
-			fail(err)
+			failObj(err, p)
 			if err == nil {
 				pl.pt[s.V] = p
 			}
 		case "skey.New":
 			k, err := bitcoin.NewSchnorrPrivateKey(pl.buf[s.B])
-			fail(err)
+			failObj(err, k)
 			if err == nil {
 				pl.spriv, pl.spub = k, k.PublicKey()
 			}
@@ -541,13 +590,13 @@ func execAPI(c *ctx, rng *rand.Rand, pl *apiPool, s skelStep, small []xy, blind 
 			pl.sc[s.S] = pl.spriv.Scalar()
 		case "spub.New":
 			k, err := bitcoin.NewSchnorrPublicKey(pl.buf[s.B])
-			fail(err)
+			failObj(err, k)
 			if err == nil {
 				pl.spub, pl.spriv = k, nil
 			}
 		case "spub.FromPoint":
 			k, err := bitcoin.NewSchnorrPublicKeyFromPoint(pl.pt[s.P])
-			fail(err)
+			failObj(err, k)
 			if err == nil {
 				pl.spub, pl.spriv = k, nil
 			}
@@ -571,7 +620,7 @@ func execAPI(c *ctx, rng *rand.Rand, pl *apiPool, s skelStep, small []xy, blind 
 				panic("harness: no private key object")
 			}
 			sig, err := pl.priv.Sign(secec.RFC6979SHA256(), pl.buf[s.M], &secec.ECDSAOptions{Encoding: secec.SignatureEncoding(s.C)})
-			fail(err)
+			failObj(err, sig)
 			if err == nil {
 				pl.buf[s.B] = sig // the caller keeps the returned slice
 			}
@@ -582,10 +631,10 @@ func execAPI(c *ctx, rng *rand.Rand, pl *apiPool, s skelStep, small []xy, blind 
 			reply = b2i(pl.pub.Verify(pl.buf[s.M], pl.buf[s.B], &secec.ECDSAOptions{Encoding: secec.SignatureEncoding(s.C)}))
 		case "key.Recover":
 			r, sv, v, err := secec.ParseCompactRecoverableSignature(pl.buf[s.B])
-			fail(err)
+			failObj(err, r, sv)
 			if err == nil {
 				k, err := secec.RecoverPublicKey(pl.buf[s.M], r, sv, v)
-				fail(err)
+				failObj(err, k)
 				if err == nil {
 					pl.pub, pl.priv = k, nil
 				}
@@ -602,7 +651,7 @@ func execAPI(c *ctx, rng *rand.Rand, pl *apiPool, s skelStep, small []xy, blind 
 			pl.buf[s.B] = pl.pub.ASN1Bytes()
 		case "key.ParseASN1":
 			k, err := secec.ParseASN1PublicKey(pl.buf[s.B])
-			fail(err)
+			failObj(err, k)
 			if err == nil {
 				pl.pub, pl.priv = k, nil
 			}
@@ -614,7 +663,7 @@ func execAPI(c *ctx, rng *rand.Rand, pl *apiPool, s skelStep, small []xy, blind 
 				panic("harness: no public key object")
 			}
 			k, err := secec.NewPublicKey(pl.buf[s.B])
-			fail(err)
+			failObj(err, k)
 			if err == nil {
 				reply = b2i(pl.pub.Equal(k))
 				if pl.priv != nil && pl.priv.Public().(*secec.PublicKey).Equal(k) != pl.pub.Equal(k) { // the crypto.Signer view of the same key
@@ -626,7 +675,7 @@ func execAPI(c *ctx, rng *rand.Rand, pl *apiPool, s skelStep, small []xy, blind 
 				panic("harness: no private key object")
 			}
 			k, err := secec.NewPrivateKey(pl.buf[s.B])
-			fail(err)
+			failObj(err, k)
 			if err == nil {
 				reply = b2i(pl.priv.Equal(k))
 			}
@@ -635,7 +684,7 @@ func execAPI(c *ctx, rng *rand.Rand, pl *apiPool, s skelStep, small []xy, blind 
 				panic("harness: no Schnorr public key object")
 			}
 			k, err := bitcoin.NewSchnorrPublicKey(pl.buf[s.B])
-			fail(err)
+			failObj(err, k)
 			if err == nil {
 				reply = b2i(pl.spub.Equal(k))
 			}
@@ -644,7 +693,7 @@ func execAPI(c *ctx, rng *rand.Rand, pl *apiPool, s skelStep, small []xy, blind 
 				panic("harness: no Schnorr private key object")
 			}
 			k, err := bitcoin.NewSchnorrPrivateKey(pl.buf[s.B])
-			fail(err)
+			failObj(err, k)
 			if err == nil {
 				reply = b2i(pl.spriv.Equal(k))
 				// (d' and n - d' are different private keys with the same x-only public key: nothing to cross-check through Public())
@@ -677,19 +726,19 @@ func execAPI(c *ctx, rng *rand.Rand, pl *apiPool, s skelStep, small []xy, blind 
 		case "btc.PreHash":
 			name := []string{"verif/domain", "", "verif/\xff\xfedomain"}[s.C%3]
 			out, err := bitcoin.PreHashSchnorrMessage(name, pl.buf[s.M])
-			fail(err)
+			failObj(err, out)
 			if err == nil {
 				pl.buf[s.B] = out
 			}
 		case "key.Generate":
 			k, err := secec.GenerateKey()
-			fail(err)
+			failObj(err, k)
 			if err == nil {
 				pl.priv, pl.pub = k, k.PublicKey()
 			}
 		case "skey.Generate":
 			k, err := bitcoin.GenerateSchnorrKey()
-			fail(err)
+			failObj(err, k)
 			if err == nil {
 				pl.spriv, pl.spub = k, k.PublicKey()
 			}
@@ -698,7 +747,7 @@ func execAPI(c *ctx, rng *rand.Rand, pl *apiPool, s skelStep, small []xy, blind 
 				panic("harness: no Schnorr private key object")
 			}
 			sig, err := pl.spriv.Sign(bytes.NewReader(make([]byte, 32)), pl.buf[s.M], nil)
-			fail(err)
+			failObj(err, sig)
 			if err == nil {
 				pl.buf[s.B] = sig
 			}
